@@ -102,6 +102,18 @@ class V : public RecursiveASTVisitor<V> {
             if (hasOwnContinue(c)) return true;
         return false;
     }
+    // no call, no store to anything but plain local variables: nothing in it can change a member read outside
+    static bool bodyIsQuiet(const Stmt* S) {
+        if (!S) return true;
+        if (isa<CallExpr>(S) || isa<CXXConstructExpr>(S) || isa<CXXNewExpr>(S) || isa<CXXDeleteExpr>(S)) return false;
+        if (auto* B = dyn_cast<BinaryOperator>(S))
+            if (B->isAssignmentOp() && !isa<DeclRefExpr>(B->getLHS()->IgnoreParenImpCasts())) return false;
+        if (auto* U = dyn_cast<UnaryOperator>(S))
+            if (U->isIncrementDecrementOp() && !isa<DeclRefExpr>(U->getSubExpr()->IgnoreParenImpCasts())) return false;
+        for (const Stmt* c : S->children())
+            if (!bodyIsQuiet(c)) return false;
+        return true;
+    }
     static bool simpleLvalue(const Expr* E) {
         E = E->IgnoreParenImpCasts();
         if (isa<DeclRefExpr>(E)) return true;
@@ -134,6 +146,13 @@ class V : public RecursiveASTVisitor<V> {
             add("ifswap", S, S->getIfLoc());
         const Stmt* P = parentStmt(S);
         if (P && isa<CompoundStmt>(P)) add("condtemp", S, S->getIfLoc());
+        // `if (c) {S}` as the last statement of a void function body -> `if (!(c)) return; S`
+        if (P && isa<CompoundStmt>(P) && !S->getElse() && isa<CompoundStmt>(S->getThen()) && noMacroInside(S->getThen()) && Cur && Cur->getReturnType()->isVoidType() &&
+            Cur->getBody() == P && cast<CompoundStmt>(P)->body_back() == S && !isa<CXXConstructorDecl>(Cur) && !isa<CXXDestructorDecl>(Cur)) {
+            bool decl = false;
+            for (const Stmt* c : cast<CompoundStmt>(S->getThen())->body()) decl |= false && isa<DeclStmt>(c);
+            add("earlyret", S, S->getIfLoc());
+        }
         if (!isa<CompoundStmt>(S->getThen()) && !isa<IfStmt>(S->getThen()) && noMacroInside(S->getThen()) && !isa<NullStmt>(S->getThen()))
             add("brace", S, S->getIfLoc());
         return true;
@@ -144,6 +163,14 @@ class V : public RecursiveASTVisitor<V> {
         if (!noMacroInside(S->getInit()) || !noMacroInside(S->getCond()) || !noMacroInside(S->getInc()) || !noMacroInside(S->getBody())) return true;
         const Stmt* P = parentStmt(S);
         if (P && (isa<CompoundStmt>(P))) add("for2while", S, S->getForLoc());
+        // hoist a loop-invariant bound: `i < a.count` with a body that contains no call and no store through a member / pointer
+        if (P && isa<CompoundStmt>(P) && S->getCond()) {
+            if (auto* B = dyn_cast<BinaryOperator>(S->getCond()->IgnoreParenImpCasts())) {
+                const Expr* R = B->getRHS()->IgnoreParenImpCasts();
+                if (B->isRelationalOp() && isa<MemberExpr>(R) && R->getType()->isIntegerType() && !R->getType().isVolatileQualified() && bodyIsQuiet(S->getBody()) && bodyIsQuiet(S->getInc()))
+                    add("hoist", S, S->getForLoc());
+            }
+        }
         return true;
     }
     bool VisitWhileStmt(WhileStmt* S) {
@@ -172,9 +199,9 @@ class V : public RecursiveASTVisitor<V> {
     }
     bool VisitBinaryOperator(BinaryOperator* S) {
         if (!Cur || !plain(S->getSourceRange()) || !noMacroInside(S)) return true;
-        if (S->getOpcode() != BO_EQ && S->getOpcode() != BO_NE) return true;
         if (S->getLHS()->HasSideEffects(Ctx) || S->getRHS()->HasSideEffects(Ctx)) return true;
-        add("commute", S, S->getOperatorLoc());
+        if (S->getOpcode() == BO_EQ || S->getOpcode() == BO_NE) add("commute", S, S->getOperatorLoc());
+        if (S->getOpcode() == BO_LT || S->getOpcode() == BO_GT || S->getOpcode() == BO_LE || S->getOpcode() == BO_GE) add("flipcmp", S, S->getOperatorLoc());
         return true;
     }
     bool VisitDeclStmt(DeclStmt* S) {
@@ -311,6 +338,34 @@ bool applySite(ASTContext& Ctx, Rewriter& RW, const Site& s, int id) {
         auto* B = cast<BinaryOperator>(s.S);
         std::string l = T(B->getLHS()->getSourceRange()), r = T(B->getRHS()->getSourceRange());
         RW.ReplaceText(B->getSourceRange(), "(" + r + ") " + (B->getOpcode() == BO_EQ ? "==" : "!=") + " (" + l + ")");
+        return true;
+    }
+    if (s.kind == "flipcmp") {
+        auto* B = cast<BinaryOperator>(s.S);
+        std::string l = T(B->getLHS()->getSourceRange()), r = T(B->getRHS()->getSourceRange());
+        const char* op = B->getOpcode() == BO_LT ? ">" : B->getOpcode() == BO_GT ? "<" : B->getOpcode() == BO_LE ? ">=" : "<=";
+        RW.ReplaceText(B->getSourceRange(), "(" + r + ") " + op + " (" + l + ")");
+        return true;
+    }
+    if (s.kind == "earlyret") {
+        auto* I = cast<IfStmt>(s.S);
+        std::string c = T(I->getCond()->getSourceRange());
+        std::string body = T(I->getThen()->getSourceRange());
+        if (body.size() < 2) return false;
+        std::string inner = body.substr(1, body.size() - 2);
+        RW.ReplaceText(I->getSourceRange(), "if (!(" + c + ")) return;" + inner);
+        return true;
+    }
+    if (s.kind == "hoist") {
+        auto* F = cast<ForStmt>(s.S);
+        const Expr* R = nullptr;
+        if (auto* B = dyn_cast<BinaryOperator>(F->getCond()->IgnoreParenImpCasts())) R = B->getRHS();
+        if (!R) return false;
+        std::string r = T(R->getSourceRange());
+        std::string ty = R->getType().getUnqualifiedType().getAsString(Ctx.getPrintingPolicy());
+        std::string nm = "gm_bound_" + std::to_string(id);
+        RW.ReplaceText(R->getSourceRange(), nm);
+        RW.InsertTextBefore(F->getForLoc(), "const " + ty + " " + nm + " = " + r + ";\n");
         return true;
     }
     if (s.kind == "brace") {
